@@ -91,9 +91,6 @@ section Step
 variable {Id Res L K V O : Type} [DecidableEq Id] [DecidableEq Res] [DecidableEq L]
   [DecidableEq K] [DecidableEq O]
 
-/-- every index satisfies the forward/reverse invariant -/
-def State.InvAll (s : State Id K V O) : Prop := ∀ i, (s.ixs i).Inv
-
 theorem State.invAll_init : (State.init : State Id K V O).InvAll := fun _ => Index.inv_empty
 
 /-- what one processed event does to one index, for the event's object -/
@@ -102,20 +99,12 @@ inductive Act (K V : Type) where
   | discard
   | replace (m : List (Option K × V))
 
-/-- the handler's state the code uses for this event -/
-def hOf (s : State Id K V O) (e : Event Id Res L K V O) (c : Indexer Id Res L) : HState :=
-  hstateOf (s.mem e.obj) c.id
-
-/-- is the index function of `c` called for this event? -/
-def invoked (s : State Id K V O) (e : Event Id Res L K V O) (c : Indexer Id Res L) : Bool :=
-  c.selects e && (hOf s e c).awake e.t
-
 def actOf (cfg : List (Indexer Id Res L)) (bk : Nat) (s : State Id K V O) (e : Event Id Res L K V O)
     (c : Indexer Id Res L) : Act K V :=
   if !(cfg.any (fun c' => decide (c'.res = e.res))) then .keep
   else if e.deleted then .discard
   else if invoked s e c then
-    let out := execOne c bk (hOf s e c) (e.script c.id)
+    let out := execOne c bk e.t (hOf s e c) (e.script c.id)
     if out.exception then .discard
     else match out.result with
       | some m => .replace m
@@ -136,7 +125,7 @@ def memOf (cfg : List (Indexer Id Res L)) (bk : Nat) (s : State Id K V O) (e : E
     (c : Indexer Id Res L) : Option HState :=
   if e.deleted then none
   else if !(cfg.any (fun c' => decide (c'.res = e.res))) then s.mem e.obj c.id
-  else if invoked s e c then (hOf s e c).next e.t (execOne c bk (hOf s e c) (e.script c.id))
+  else if invoked s e c then (hOf s e c).next e.t (execOne c bk e.t (hOf s e c) (e.script c.id))
   else if c.selects e then some (hOf s e c)
   else s.mem e.obj c.id
 
@@ -207,9 +196,9 @@ theorem step_spec (veq : V → V → Bool) (cfg : List (Indexer Id Res L)) (bk :
       simp only [hd', Bool.false_eq_true, if_false]
       -- the handlers called in this cycle
       obtain ⟨todo, htodo⟩ : ∃ todo, todo = (cfg.filter (fun c => c.selects e)).filter
-        (fun c => (hstateOf (s.mem e.obj) c.id).awake e.t) := ⟨_, rfl⟩
+        (fun c => (hstateOf e.t (s.mem e.obj) c.id).awake e.t) := ⟨_, rfl⟩
       obtain ⟨g, hg⟩ : ∃ g : Indexer Id Res L → Outcome K V,
-        g = fun c => execOne c bk (hstateOf (s.mem e.obj) c.id) (e.script c.id) := ⟨_, rfl⟩
+        g = fun c => execOne c bk e.t (hstateOf e.t (s.mem e.obj) c.id) (e.script c.id) := ⟨_, rfl⟩
       rw [← htodo]
       have hsub : List.Sublist (todo.map (·.id)) (cfg.map (·.id)) := by
         rw [htodo]
@@ -222,7 +211,7 @@ theorem step_spec (veq : V → V → Bool) (cfg : List (Indexer Id Res L)) (bk :
         · rintro ⟨⟨a, b⟩, c⟩; exact ⟨a, b, c⟩
         · rintro ⟨a, b, c⟩; exact ⟨⟨a, b⟩, c⟩
       have houts : todo.map (fun c => (c.id, g c)) =
-          todo.map (fun c => (c.id, execOne c bk (hstateOf (s.mem e.obj) c.id) (e.script c.id))) := by
+          todo.map (fun c => (c.id, execOne c bk e.t (hstateOf e.t (s.mem e.obj) c.id) (e.script c.id))) := by
         rw [hg]
       have hfst : (todo.map (fun c => (c.id, g c))).map Prod.fst = todo.map (·.id) := by
         simp [List.map_map, Function.comp_def]
@@ -304,7 +293,7 @@ theorem step_spec (veq : V → V → Bool) (cfg : List (Indexer Id Res L)) (bk :
           cases ha
           rw [hv k o]
           simp only [actOf, hh, hd', hinvk, Bool.not_true, Bool.false_eq_true, if_false, if_true, hOf, hg]
-          by_cases hx : (execOne c bk (hstateOf (s.mem e.obj) c.id) (e.script c.id)).exception = true
+          by_cases hx : (execOne c bk e.t (hstateOf e.t (s.mem e.obj) c.id) (e.script c.id)).exception = true
           · simp [hx]
           · simp [hx]
         · have hninv : invoked s e c = false := by
